@@ -71,7 +71,7 @@ def r2(ctx):
     if not loops:
         raise AnalysisError("the X update is not inside the iteration loop")
     init = cfg.for_init[id(loops[0])]
-    names = sorted({a.id for a in ux[0].node.args if isinstance(a, ast.Name)} | ({node.ast.targets[0].id} if isinstance(node.ast, ast.Assign) and isinstance(node.ast.targets[0], ast.Name) else set()))
+    names = sorted({a.id for a in list(ux[0].node.args) + [k.value for k in ux[0].node.keywords] if isinstance(a, ast.Name)} | ({node.ast.targets[0].id} if isinstance(node.ast, ast.Assign) and isinstance(node.ast.targets[0], ast.Name) else set()))
     state = []
     for nm in names:
         for d in rd.reaching(init, nm):
